@@ -43,6 +43,9 @@ def build(tier):
         case("tagged-variant-field", "field:x", *pair(lambda n, w: TypeDef(n, "enum", variants=[Variant("A", "named", [Field("i32", "x", d if w else [])]), Variant("B", "unit")], attrs=['#[ts(tag = "t")]'], derives=TS_ONLY, vals=False)))
         case("variant", "dropped", *pair(lambda n, w: TypeDef(n, "enum", variants=[Variant("A", "unit", attrs=(d if w else [])), Variant("B", "tuple", [Field("i32")])], derives=TS_ONLY, vals=False)))
         case("flattened-field", "dropped", *pair(lambda n, w: TypeDef(n, "struct", "named", [Field("St", "a", (d if w else []) + ["#[ts(flatten)]"]), Field("String", "b")], derives=TS_ONLY, vals=False)))
+        case("field-next-to-flattened", "field:a", *pair(lambda n, w: TypeDef(n, "struct", "named", [Field("i32", "a", d if w else []), Field("St", "s", ["#[ts(flatten)]"])], derives=TS_ONLY, vals=False)))
+        case("field-between-flattened", "field:m", *pair(lambda n, w: TypeDef(n, "struct", "named", [Field("St", "s", ["#[ts(flatten)]"]), Field("i32", "m", d if w else []), Field("Gp<i32>", "g", ["#[ts(flatten)]"])], derives=TS_ONLY, vals=False)))
+        case("variant-field-next-to-flattened", "field:x", *pair(lambda n, w: TypeDef(n, "enum", variants=[Variant("A", "named", [Field("i32", "x", d if w else []), Field("St", "s", ["#[ts(flatten)]"])]), Variant("B", "unit")], attrs=['#[ts(tag = "t")]'], derives=TS_ONLY, vals=False)))
         case("tuple-field", "dropped", *pair(lambda n, w: TypeDef(n, "struct", "tuple", [Field("i32", None, d if w else []), Field("String")], derives=TS_ONLY, vals=False)))
         case("type-override-field", "field:a", *pair(lambda n, w: TypeDef(n, "struct", "named", [Field("i32", "a", (d if w else []) + ['#[ts(type = "number /* seconds */")]']), Field("String", "b")], derives=TS_ONLY, vals=False)))
         case("as-field", "field:a", *pair(lambda n, w: TypeDef(n, "struct", "named", [Field("i32", "a", (d if w else []) + ['#[ts(as = "String")]']), Field("String", "b")], derives=TS_ONLY, vals=False)))
